@@ -378,7 +378,7 @@ func (cs *ContractSet) parseContractFile(path, pkgPath string, external bool) er
 			case "at":
 				// at call <callee-substring>: assert {label} expr
 				// at call <callee-substring>: ghost name = expr
-				m := regexp.MustCompile(`^call\s+(\S+?):\s*(assert|ghostpre|ghost)\s+(.*)$`).FindStringSubmatch(rest)
+				m := regexp.MustCompile(`^call\s+(\S+?):\s*(assert|lemma|ghostpre|ghost)\s+(.*)$`).FindStringSubmatch(rest)
 				if m == nil {
 					return fail(l, "bad at-call clause")
 				}
